@@ -855,6 +855,73 @@ struct Interp {
       }
       return true;
     }
+    if (o == "leq_shrunk") {
+      // a <= (a with one more constraint that excludes a witness of a): a yes
+      // answer loses that witness. The constraint is built at run time from a
+      // live witness w: e <= e(w) - d with e in {x, -x, x-y, y-x, x+y, -x-y}.
+      int a = RI("a");
+      if (regs[a].wit.empty())
+        return true;
+      const Witness &w = regs[a].wit[(size_t)op.at("w").as_int() % regs[a].wit.size()];
+      std::string x = op.at("x").as_str(), y = op.at("y").as_str();
+      long form = (long)op.at("form").as_int() % 6, d = 1 + (long)op.at("d").as_int() % 3;
+      LinExp e;
+      switch (form) {
+      case 0:
+        e.add_term(x, 1);
+        break;
+      case 1:
+        e.add_term(x, -1);
+        break;
+      case 2:
+        e.add_term(x, 1);
+        e.add_term(y, -1);
+        break;
+      case 3:
+        e.add_term(y, 1);
+        e.add_term(x, -1);
+        break;
+      case 4:
+        e.add_term(x, 1);
+        e.add_term(y, 1);
+        break;
+      default:
+        e.add_term(x, -1);
+        e.add_term(y, -1);
+        break;
+      }
+      if (e.terms.empty())
+        e.add_term(x, 1);
+      mpz_class base = 0;
+      if (!eval_exp(e, w, base))
+        return true;
+      LinCst c;
+      c.kind = LinCst::LEQ;
+      e.cst = -(base - d); // e - (e(w) - d) <= 0 is false at w
+      c.e = e;
+      Json cs = Json::arr();
+      cs.push(c.to_json());
+      AbsVal::P b = regs[a].val->clone();
+      b->add_constraints(sys_of(cs));
+      bool yes = regs[a].val->leq(*b);
+      st.inc(yes ? "leq_shrunk_yes" : "leq_shrunk_no");
+      if (yes) {
+        for (auto &ww : regs[a].wit) {
+          GammaResult g = in_gamma(*b, sigma_of_witness(cx, ww), gopts);
+          if (!g.ok) {
+            violation("leq_yes_but_state_not_in_rhs", g.item,
+                      g.detail + " ; lhs=" + regs[a].val->str() + " rhs=" + b->str());
+            return false;
+          }
+        }
+      }
+      if (!b->leq(*regs[a].val)) {
+        // adding a constraint can only shrink: (a + c) <= a must hold. This is a
+        // completeness statement, not required by the property: only counted.
+        st.inc("leq_shrunk_not_below_original");
+      }
+      return true;
+    }
     if (o == "benign") {
       int ri = RI("r");
       Reg &rg = regs[ri];
@@ -1101,6 +1168,16 @@ Case gen_c04(Rng &r, const Tier &t, const std::vector<std::string> &doms) {
       q.set("a", (long)r.below(nregs));
       q.set("b", (long)r.below(nregs));
       ops.push(q);
+    } else if (r.chance(1, 2)) {
+      Json q = Json::obj();
+      q.set("op", "leq_shrunk");
+      q.set("a", (long)r.below(nregs));
+      q.set("x", "v" + std::to_string(r.below(N_INT)));
+      q.set("y", "v" + std::to_string(r.below(N_INT)));
+      q.set("form", (long)r.below(6));
+      q.set("w", (long)r.below(12));
+      q.set("d", (long)r.below(3));
+      ops.push(q);
     }
   }
   c.hist.set("ops", ops);
@@ -1144,8 +1221,48 @@ Case gen_c05b(Rng &r, const Tier &t, const std::vector<std::string> &doms) {
   // adversarial steps: each step grows register 1 (a copy of the chain value)
   Json steps = Json::arr();
   int L = t.thorough ? 400 : 160;
+  // Chains in which variables tied by stable relations grow alternately (the
+  // classic way a relational widening that re-closes its left operand never
+  // stabilises): the prefix gives both variables finite values, every step
+  // rewrites one of them in terms of the other, and x_i = w_i join step(w_i).
+  bool alternating = r.chance(1, 4);
+  std::string va = g.iv(), vb = g.iv();
+  int nalt = (int)r.range(2, 3);
+  std::vector<std::string> ring = {va, vb};
+  if (nalt == 3)
+    ring.push_back(g.iv());
+  if (alternating) {
+    for (auto &x : ring) {
+      Json op = g.op("assign");
+      op.set("r", 0);
+      op.set("x", x);
+      op.set("e", LinExp(mpz_class((long)r.range(-2, 2))).to_json());
+      prefix.push(op);
+    }
+  }
+  long c_even = (long)r.range(0, 2), c_odd = (long)r.range(c_even == 0 ? 1 : 0, 2);
+  bool downwards = r.chance(1, 4);
   for (int i = 0; i < L; i++) {
     Json grow = Json::arr();
+    // (random steps only interrupt the pattern early: a later one would hide a
+    // divergence behind the generous bound on strict steps)
+    if (alternating && (i >= 12 || !r.chance(1, 6))) {
+      const std::string &dst = ring[i % ring.size()], &src = ring[(i + 1) % ring.size()];
+      Json op = g.op("assign");
+      LinExp e = LinExp::var(src);
+      e.cst = (i % 2 == 0) ? c_even : c_odd;
+      if (downwards)
+        e.cst = -e.cst;
+      op.set("x", dst);
+      op.set("e", e.to_json());
+      op.set("r", 1);
+      grow.push(op);
+      Json s = Json::obj();
+      s.set("grow", grow);
+      s.set("join_first", true);
+      steps.push(s);
+      continue;
+    }
     int m = (int)r.range(1, 3);
     for (int k = 0; k < m; k++) {
       unsigned w = (unsigned)r.below(100);
@@ -1202,6 +1319,10 @@ Case gen_c05b(Rng &r, const Tier &t, const std::vector<std::string> &doms) {
   h.set("ts", ts);
   c.hist = h;
   c.params.set("part", "chains");
+  {
+    static const long ds[] = {0, 0, 1, 2, 2, 3, 5};
+    c.params.set("chain_delay", ds[r.below(7)]);
+  }
   random_knobs(r, c.domain, c.params);
   c.exec_seed = r.next() & 0x3fffffffffffffffULL;
   return c;
@@ -1214,8 +1335,11 @@ long chain_bound(const DomainInfo &di, size_t nthresholds) {
   long T = (long)nthresholds + 3;
   if (di.caps & CAP_NONREL)
     return 10 * (2 * V * T + 2);
-  if (di.caps & CAP_EXACT_EXPORT) // zones / octagons
-    return 10 * ((2 * V + 1) * (2 * V + 1) * T + 2);
+  // zones / octagons: a strict widening step drops at least one of the
+  // <= (2V)^2 constraints of its left operand or moves one of the 2V bounds to
+  // the next threshold; x3 safety factor
+  if (di.caps & CAP_EXACT_EXPORT)
+    return 3 * ((2 * V) * (2 * V) + 2 * V * T);
   return 5000;
 }
 
@@ -1244,8 +1368,18 @@ Outcome check_c05b(const Case &c, Stats &st) {
       nts++;
     }
     bool use_ts = c.pbool("use_thresholds");
+    long chain_delay = c.pint("chain_delay", 0);
     long bound = chain_bound(*di, use_ts ? nts : 0);
-    for (auto &s : c.hist.at("steps").a) {
+    // The listed steps are applied in order; while the chain is still moving
+    // at the end of the list (a strict step among the last 40) the list is
+    // replayed cyclically, until the chain has been stationary for 40 steps or
+    // the number of strict steps exceeds the bound.
+    const std::vector<Json> &steps = c.hist.at("steps").a;
+    long last_strict = 0;
+    for (size_t si = 0; !steps.empty(); si++) {
+      if (si >= steps.size() && L - last_strict >= 40)
+        break;
+      const Json &s = steps[si % steps.size()];
       L++;
       in.step++;
       // x_i: the current chain value pushed through growing operations
@@ -1261,17 +1395,27 @@ Outcome check_c05b(const Case &c, Stats &st) {
                               in.regs[0].wit.end());
         cap(in.regs[1].wit);
       }
-      AbsVal::P next = use_ts ? in.regs[0].val->widen_thresholds(*in.regs[1].val, ts)
-                              : in.regs[0].val->widen(*in.regs[1].val);
+      // like the fixpoint iterator, the first `delay` steps join instead of widening
+      bool joining = L <= chain_delay;
+      AbsVal::P next = joining ? in.regs[0].val->join(*in.regs[1].val)
+                       : use_ts ? in.regs[0].val->widen_thresholds(*in.regs[1].val, ts)
+                                : in.regs[0].val->widen(*in.regs[1].val);
       bool stationary = next->leq(*in.regs[0].val);
-      if (!stationary)
+      if (!stationary && !joining) {
         strict++;
+        last_strict = L;
+      }
+      if (getenv("CRABSIM_CHAIN_TRACE"))
+        fprintf(stderr, "chain step %ld %s strict=%ld x=%s next=%s\n", L,
+                joining ? "join" : "widen", strict, in.regs[1].val->str().c_str(),
+                next->str().c_str());
       std::vector<Witness> nw = in.regs[0].wit;
       nw.insert(nw.end(), in.regs[1].wit.begin(), in.regs[1].wit.end());
       in.regs[0].val = std::move(next);
       in.regs[0].wit = nw;
       cap(in.regs[0].wit);
-      if (!in.check_reg(0, use_ts ? "widening_thresholds" : "widening"))
+      // (the witnesses are only followed through the listed steps, not through the replays)
+      if (si < steps.size() && !in.check_reg(0, use_ts ? "widening_thresholds" : "widening"))
         return;
       if (strict > bound) {
         in.violation("widening_chain_not_stationary", use_ts ? "thresholds" : "plain",
